@@ -6,7 +6,7 @@ import S3V.Thm.XmlEol
 An accepted scalar element is given its XML meaning: whatever mix of text pieces with references, CDATA sections,
 comments and PIs its character data is written as, and however its line ends are written (LF, CR LF, CR), the text
 `Deserializer::text` hands to the scalar parser unescapes to the string the run denotes (code since c575458; line
-ends since eab498c).
+ends since d365e05).
 -/
 namespace S3V.XmlSpec
 open S3V S3V.Xml
